@@ -18,11 +18,11 @@ func init() {
 type electionRoles struct {
 	lockT    *types.Named
 	keyF     *types.Var
-	lastF    *types.Var // bytes last observed / written for the election key
-	tsoF     *types.Var // engine timestamp
+	lastF    *types.Var                   // bytes last observed / written for the election key
+	tsoF     *types.Var                   // engine timestamp
 	getters  map[*ssa.Function]*types.Var // func returning a load of field
 	setters  map[*ssa.Function]*types.Var // func storing its parameter into field
-	observer *ssa.Function               // function that stores KVGet(electionKey) into lastF
+	observer *ssa.Function                // function that stores KVGet(electionKey) into lastF
 }
 
 func (p *Prog) electionRoles() *electionRoles {
